@@ -131,11 +131,12 @@ func (fr *Frame) execRangeNext(ins ssa.Instruction, st *State) *State {
 		// keys visited so far (string-keyed maps only): starts empty
 		if mt := x.X.Type().Underlying().(*types.Map); vc.specialSort(mt.Key()) == SString {
 			m := fr.val(x.X).T
-			mv, _, _, _ := vc.mapGet(st, mt, m)
+			mv, ms, _, _ := vc.mapGet(st, mt, m)
 			if fr.rangeMap == nil {
 				fr.rangeMap = map[*ssa.Range]string{}
 			}
 			fr.rangeMap[x] = mv.S
+			vc.setGhost(st, "$rangemap."+string(ms), mv)
 			vc.setGhost(st, "$rangevisited", T(visitedSort, "((as const %s) false)", visitedSort))
 		}
 		return st
@@ -157,8 +158,13 @@ func (fr *Frame) execRangeNext(ins ssa.Instruction, st *State) *State {
 			// ends (and the map was not changed meanwhile) every key was visited
 			vis := vc.ghost(st, "$rangevisited", visitedSort)
 			st.Assume(Implies(okT, Not(Sel(vis, k, SBool))))
-			if fr.rangeMap[rng] == mv.S {
-				st.Assume(Implies(And(Not(okT), Not(Eq(m, IntLit(0)))), T(SBool, "(forall ((k!v String)) (! (=> (select %s k!v) (select %s k!v)) :pattern ((select %s k!v)) :pattern ((select %s k!v))))", dom.S, vis.S, dom.S, vis.S)))
+			{
+				// "the map was not changed meanwhile": its value equals the value at the start of the range
+				unchanged := True
+				if fr.rangeMap[rng] != mv.S {
+					unchanged = Eq(mv, vc.ghost(st, "$rangemap."+string(ms), ms))
+				}
+				st.Assume(Implies(And(Not(okT), Not(Eq(m, IntLit(0))), unchanged), T(SBool, "(forall ((k!v String)) (! (=> (select %s k!v) (select %s k!v)) :pattern ((select %s k!v)) :pattern ((select %s k!v))))", dom.S, vis.S, dom.S, vis.S)))
 			}
 			vc.setGhost(st, "$rangevisited", Ite(okT, Sto(vis, k, True), vis))
 		}
